@@ -154,7 +154,7 @@ func propC09(c *Ctx) {
 	if fn := c.Fn(d3, "(*stack.NIC).DeliverNetworkPacket"); fn != nil {
 		m := map[string]string{
 			"NP":    "$0.stack.networkProtocols[$4]#0",
-			"VV":    "new(buffer.VectorisedView)", // the vv parameter (address-taken: RemoveFirst has a pointer receiver)
+			"VV":    "$5", // the vv parameter before any mutation
 			"FIRST": "buffer.VectorisedView.First({VV})",
 			"ADDRS": "iface:stack.NetworkProtocol.ParseAddresses({NP}, {FIRST})",
 			"REF":   "(*stack.NIC).getRef($0, $4, {ADDRS}#1)",
